@@ -7,6 +7,11 @@ from `src/json/validate.rs` on every run.
 -/
 import SuccinctlyVerif.Proof.JsonF5
 import SuccinctlyVerif.Proof.JsonErr
+import SuccinctlyVerif.Proof.JsonErrSurr
+import SuccinctlyVerif.Proof.JsonPdaSound
+import SuccinctlyVerif.Proof.JsonPdaComplete
+import SuccinctlyVerif.Proof.JsonPdaInv
+import SuccinctlyVerif.Proof.JsonAlias
 import SuccinctlyVerif.Proof.JsonLineCol
 import SuccinctlyVerif.Generated.C08
 namespace SV.Props.C08
@@ -96,5 +101,80 @@ theorem error_offset_viable_fails :
     | err e => rw [hv] at h; simp [Res.err?] at h; subst h; rfl
   · rintro ⟨s, hs⟩
     exact f5_not_valid MAX ([0x30, 0x34, 0x31] ++ s) (by simpa using hs)
+
+
+/-! ### the executable oracle (`Spec/JsonPda`) is the specification -/
+
+/-- **Reference recogniser.** The byte-at-a-time pushdown automaton accepts exactly the valid texts
+(soundness by backward residual languages, completeness by induction on the derivation), for every
+nesting limit. -/
+theorem acceptB_iff_any (max : Nat) (b : Bytes) : Pda.acceptB max b = true ↔ Valid max b :=
+  ⟨Pda.Snd.acceptB_sound max (Pda.Inv.step_preserves_WF max) b, Pda.Cpl.acceptB_complete max b⟩
+
+theorem acceptB_iff (b : Bytes) : Pda.acceptB MAX b = true ↔ Valid MAX b := acceptB_iff_any MAX b
+
+/-- **Viability is decidable**: the automaton survives a prefix iff the prefix extends to a valid
+text (⇒ by the constructive completion `Pda.complete`: close the string / number / keyword /
+escape, then every open container). -/
+theorem viableB_iff_any (max : Nat) (p : Bytes) : Pda.viableB max p = true ↔ Viable max p :=
+  ⟨fun h => let ⟨c, hc⟩ := Pda.Inv.viableB_extends max p h; ⟨c, (acceptB_iff_any max _).mp hc⟩,
+   Pda.Cpl.viableB_of_viable max p⟩
+
+theorem viableB_iff (p : Bytes) : Pda.viableB MAX p = true ↔ Viable MAX p := viableB_iff_any MAX p
+
+/-- `lvp` is the length of the longest viable prefix. -/
+theorem lvp_longest_viable (b : Bytes) :
+    Pda.lvp MAX b ≤ b.length ∧ Viable MAX (b.take (Pda.lvp MAX b)) ∧
+      ∀ n, Pda.lvp MAX b < n → n ≤ b.length → ¬ Viable MAX (b.take n) := by
+  refine ⟨Pda.Inv.lvp_le MAX b, (viableB_iff _).mp (Pda.Inv.lvp_viable MAX b), ?_⟩
+  intro n h1 h2 hv
+  have := Pda.Inv.lvp_maximal MAX b n h1 h2
+  rw [(viableB_iff _).mpr hv] at this
+  cases this
+
+example : Pda.lvp MAX [0x22, 0x5C, 0x75, 0x44, 0x38, 0x30, 0x30, 0x5C, 0x75, 0x30, 0x30, 0x34, 0x31, 0x22] = 9 := by
+  decide +kernel
+
+/-- **Error offset, positive half for all kinds.** Unless the text before the reported offset ends
+in the decidable F5 pattern (`\uD[C-F]` + 0–2 hex digits, or `\uD[8-B]hh\u` + 1–4 hex digits that
+cannot begin a low surrogate – a syntactic over-approximation of the defect class), the reported
+offset lies within the longest viable prefix – for every error kind. -/
+theorem error_offset_viable_outside_f5 (b : Bytes) (e : Err) (h : validate MAX b = .err e)
+    (hc : f5Class (b.take e.offset) = false) : Viable MAX (b.take e.offset) :=
+  validate_err_viable_f5 MAX b e h hc
+
+/-- The same as a bound by the executable `lvp`. -/
+theorem error_offset_le_lvp_outside_f5 (b : Bytes) (e : Err) (h : validate MAX b = .err e)
+    (hc : f5Class (b.take e.offset) = false) : e.offset ≤ Pda.lvp MAX b := by
+  have hv := error_offset_viable_outside_f5 b e h hc
+  have hl := (error_linecol b e h).2
+  rcases Nat.lt_or_ge (Pda.lvp MAX b) e.offset with hlt | hge
+  · exact absurd hv ((lvp_longest_viable b).2.2 _ hlt hl)
+  · exact hge
+
+example : f5Class [0x22, 0x5C, 0x75, 0x44, 0x38, 0x30, 0x30, 0x5C, 0x75, 0x30, 0x30, 0x34, 0x31] = true := by decide
+example : f5Class [0x5B, 0x31, 0x2C] = false := by decide
+
+/-! ### reconciliation with the shared specs -/
+
+/-- The local `utf8Wf` is "exactly one scalar value, well-formed per the Table 3-7 automaton of
+`Spec/Utf8`", and equivalently the `SV.Utf8.encode` image of the scalar values. -/
+theorem utf8Wf_iff_utf8_automaton (c : Bytes) :
+    utf8Wf c = true ↔ c ≠ [] ∧ SV.Utf8.run .start c = .start ∧
+      ∀ k, 0 < k → k < c.length → SV.Utf8.run .start (c.take k) ≠ .start :=
+  Alias.utf8Wf_iff_run c
+
+theorem utf8Wf_iff_encode (c : Bytes) :
+    utf8Wf c = true ↔ ∃ cp, SV.Utf8.isScalar cp = true ∧ c = SV.Utf8.encode cp :=
+  Alias.utf8Wf_iff_encode c
+
+/-- `lineCol` (the validator module's definition) coincides with `SV.Lines.lineCol` at every offset
+inside the text that is not the LF of a CRLF; it differs at the end of the text after a final line
+break (the validator reports "line n+1, column 1" there, `SV.Lines` reports against the last
+existing line) and inside a CRLF – which is why the local definition is kept. -/
+theorem lineCol_eq_lines (b : Bytes) (off : Nat) (h : off < b.length)
+    (hcrlf : ¬ (0 < off ∧ b[off - 1]? = some 0x0D ∧ b[off]? = some 0x0A)) :
+    lineCol b off = SV.Lines.lineCol b off :=
+  Alias.lineCol_eq_lines b off h hcrlf
 
 end SV.Props.C08
